@@ -585,8 +585,10 @@ impl JTracker {
                 ctx, "C18", "trigger-child", view_name(&parent), ok,
                 "trigger {} fired; its child in the book is {}:{}", fmt_view(&parent), c.order_id, fmt_view(&c.order)
             );
-            let fresh = !self.by_id.contains_key(&c.order_id) && self.max_id.map_or(true, |m| c.order_id > m);
-            rule!(ctx, "C18", "child-id-fresh", view_name(&parent), fresh, "child id {} is not fresh (max id so far {:?})", c.order_id, self.max_id);
+            // fresh = never given to any order of this exchange (that ids also grow is C17's subject)
+            let fresh = !self.by_id.contains_key(&c.order_id);
+            rule!(ctx, "C18", "child-id-fresh", view_name(&parent), fresh, "child id {} is not fresh: it was already given to another order", c.order_id);
+            rule!(ctx, "C17", "id-order", "trigger-child", self.max_id.map_or(true, |m| c.order_id > m), "trigger child id {} does not exceed earlier id {:?}", c.order_id, self.max_id);
             rule!(ctx, "C03", "id-reuse", "trigger-child", !self.by_id.contains_key(&c.order_id), "child id {} was already given to another order", c.order_id);
             let idx = self.recs.len();
             let (clock, tag) = (self.recs[pi].submit_clock, self.recs[pi].tag);
